@@ -248,6 +248,11 @@ def bundle(mol, es, sett, charges, mults, sp2_tol=None, do_fock=True):
     if factor is not None and upd("unit_factor_vs_codata", abs(factor / E_ANG_TO_AU_CODATA - 1.0), 1e-3):
         viol.append({"clause": "dipole-unit-constant", "mech": None,
                      "detail": {"factor": factor, "codata_e_angstrom_to_au": E_ANG_TO_AU_CODATA}})
+    CHG = None
+    if do_fock and method != "PM6" and sett.get("eig", True):
+        CHG = npy(getattr(es, "charge", None))
+        if CHG is not None and (CHG.ndim != 3 or CHG.shape[0] != nmol or CHG.shape[2] != molsize):
+            CHG = None
     F = None
     MO = None
     if do_fock and method != "PM6" and torch.is_tensor(getattr(mol, "molecular_orbitals", None)):
@@ -373,6 +378,36 @@ def bundle(mol, es, sett, charges, mults, sp2_tol=None, do_fock=True):
         qs_tol = TOL_QSUM + sp2_allow + 15.0 * float(sett.get("scf_eps", 0.0)) * max(norb, 1) * max(amp, 1.0)
         if not nc[b] and upd("charge_sum", abs(q[b].sum() - ch), qs_tol):
             viol.append({"clause": "charge-sum", "mech": None, "detail": dict(wit, q_sum=float(q[b].sum()))})
+        # ---- per-orbital atomic populations (Electronic_Structure.charge) -----------------------------
+        if CHG is not None:
+            cb = CHG[b]
+            natom = n
+            finite_T = ("T_el" in conv) or conv[0] == 3
+            mon["orbital_population_rows"] = mon.get("orbital_population_rows", 0) + norb
+            # (a) every real MO row sums to 1 over the real atoms; padding rows / padding atoms exactly 0
+            rowsum = cb[:norb, :natom].sum(axis=1) if norb else np.zeros(0)
+            pad_ok = bool(np.all(cb[norb:, :] == 0.0) and np.all(cb[:, natom:] == 0.0))
+            bad_a = upd("orbital_population_row_sum", np.abs(rowsum - 1.0).max() if norb else 0.0, 1e-9)
+            if bad_a or not pad_ok:
+                viol.append({"clause": "orbital-populations-consistent-with-density/row-sum", "mech": None,
+                             "detail": dict(wit, row_sums=rowsum.tolist(), padding_exactly_zero=pad_ok)})
+            # (b) occupied-orbital populations reproduce the atomic populations of the density matrix
+            occ_ok = (not uhf) or (na == nb)
+            if finite_T or not occ_ok or nc[b]:
+                mon["orbital_population_rows_ineligible_for_density_clause"] = \
+                    mon.get("orbital_population_rows_ineligible_for_density_clause", 0) + 1
+            else:
+                pop_mo = 2.0 * cb[:na, :natom].sum(axis=0)
+                pop_dm = pop[:natom]
+                # the orbitals are those of F[P], P the returned iterate: they reproduce P up to the stopping rule
+                # max|dP| <= 15 eps (x mixing amplification), 4 diagonal elements per atom -> K = 300 as in C04
+                cv_amp = 1.0 / (1.0 - conv[1]) if (conv[0] == 0 and len(conv) > 1 and 0 < conv[1] < 1) else 1.0
+                ptol = 1e-8 + 300.0 * float(sett.get("scf_eps", 0.0)) * cv_amp + 10.0 * sp2_allow
+                mon["orbital_population_atoms_compared"] = mon.get("orbital_population_atoms_compared", 0) + natom
+                if upd("orbital_population_vs_density", np.abs(pop_mo - pop_dm).max(), ptol):
+                    viol.append({"clause": "orbital-populations-consistent-with-density", "mech": None,
+                                 "detail": dict(wit, from_orbital_populations=pop_mo.tolist(),
+                                                from_density_matrix=pop_dm.tolist(), tol=ptol, nocc=na)})
         # ---- dipole ----------------------------------------------------------------------------
         if dip is not None and factor is not None:
             mu_ind = np.zeros(3)
